@@ -147,7 +147,7 @@ def job_storage(job):
 COLS = ("Bo", "Bg", "Bw", "Rs", "Rv", "mu_o", "mu_g", "mu_w", "So")
 
 
-def replay_tabulated(model, n=3, order="ascending", node=1):
+def replay_tabulated(model, n=3, order="ascending", node=1, sw_zero=False):
     """from_table on the model's table (rows in the given order): tabulated alpha vs lambda/c evaluated with
     independently built (sorted) interpolators."""
     import warnings
@@ -165,6 +165,11 @@ def replay_tabulated(model, n=3, order="ascending", node=1):
         tab[c] = np.array([m[f"{c}{k}"] for k in range(n)])
     tab["So"] = np.clip(tab["So"], 0.0, 1.0)
     krp = {"So": np.array([0.0, 1.0]), "Sg": np.array([1.0, 0.0]), "Sw": np.array([0.0, 0.0])}
+    if sw_zero:
+        # no water in the reservoir (Sw = 0.0 exactly) with a rel-perm table that was measured at connate water 0.1
+        m["Sw"] = 0.0
+        krp = {"So": np.array([0.0, 0.9]), "Sg": np.array([0.9, 0.0]), "Sw": np.array([0.1, 0.1])}
+        tab["So"] = np.clip(tab["So"], 0.0, 0.9)
     for c in KR_FUNCS:
         krp[c] = np.array([m[f"{c}{k}"] for k in range(2)])
     ref_pvt = {c: interp1d(ps, tab[c], fill_value="extrapolate") for c in COLS}
@@ -187,7 +192,7 @@ def replay_tabulated(model, n=3, order="ascending", node=1):
                          f"{want.tolist()}", "inputs": m}
 
 
-def job_tabulated(job, n, order, node=1):
+def job_tabulated(job, n, order, node=1, sw_zero=False):
     """`FlowPropertiesTwoPhase.from_table(...).pvt_props['alpha']` row by row against lambda/c of the same table, rows
     listed in ascending or descending pressure order (lab reports list pressures top-down; the library's interpolators
     sort, so both are the same table)."""
@@ -209,13 +214,19 @@ def job_tabulated(job, n, order, node=1):
         if c == "So":
             dom += [T.b_le(P(v), T.ONE) for v in cols[c]]
     krt = {"So": SymArray([Q(0), Q(1)], "f8"), "Sg": SymArray([Q(1), Q(0)], "f8"), "Sw": SymArray([Q(0), Q(0)], "f8")}
+    if sw_zero:
+        krt = {"So": SymArray([Q(0), Q(9, 10)], "f8"), "Sg": SymArray([Q(9, 10), Q(0)], "f8"), "Sw": SymArray([Q(1, 10), Q(1, 10)], "f8")}
+        dom += [T.b_le(P(v), T.Poly.const(Fraction(9, 10))) for v in cols["So"]]
+        job.bound(water="Sw = 0.0 exactly (no water) with a rel-perm table measured at connate water 0.1 (So rows 0 .. 0.9)")
     for c in KR_FUNCS:
         krt[c] = SymArray([fresh(f"{c}{k}", pos=True) for k in range(2)], "f8")
     vs, rdom = box(None, rho_o0=("0.1", 100), rho_g0=("0.001", 10), rho_w0=("0.1", 100), phi=("0.01", 1), Sw=(0, "0.5"))
+    if sw_zero:
+        vs["Sw"] = Q(0)
     dom = dom + rdom
     ref = {k: vs[k] for k in RHO}
     idx = list(range(n)) if order == "ascending" else list(range(n - 1, -1, -1))
-    rp = (replay_tabulated, {"n": n, "order": order, "node": node})
+    rp = (replay_tabulated, {"n": n, "order": order, "node": node, "sw_zero": sw_zero})
 
     def run():
         tab = {k: SymArray([v[j] for j in idx], "f8") for k, v in cols.items()}
@@ -229,7 +240,7 @@ def job_tabulated(job, n, order, node=1):
     res = paths(job, run, dom, max_paths=64)
     normal = reached = 0
     for k, pr in enumerate(res):
-        tag = f"tabulated[{n} rows,{order}]"
+        tag = f"tabulated[{n} rows,{order}{',Sw=0.0' if sw_zero else ''}]"
         if pr.exc is not None:
             if isinstance(pr.exc, SS.NonMonotoneAbscissae):
                 continue            # a scaled pseudopressure that is not monotone: C15's subject
@@ -262,7 +273,7 @@ FALLBACK = [(replay_c, {}), (replay_c, {"mode": "constant"}), (replay_c, {"mode"
 
 def jobs(tier):
     out = [("storage", job_storage), ("tabulated-3-asc", lambda j: job_tabulated(j, 3, "ascending")),
-           ("tabulated-3-desc", lambda j: job_tabulated(j, 3, "descending"))]
+           ("tabulated-3-desc", lambda j: job_tabulated(j, 3, "descending")), ("tabulated-3-asc-no-water", lambda j: job_tabulated(j, 3, "ascending", 1, True))]
     if tier != "quick":
         out += [("tabulated-4-asc", lambda j: job_tabulated(j, 4, "ascending", 2)), ("tabulated-4-desc", lambda j: job_tabulated(j, 4, "descending", 2))]
     return out
